@@ -134,6 +134,10 @@ def main(argv):
     sym_results, nat_results = [], []
     fault = []
 
+    # global budget of the deductive phase (on the unchanged tree every check needs a small fraction of it; code that makes
+    # the path enumeration explode ends in UNDECIDED units and the native stand-ins decide)
+    global_s = float(os.environ.get('VERIF_GLOBAL_SECONDS', '600' if tier == 'quick' else '5400'))
+    os.environ['VERIF_DEADLINE'] = str(time.time() + global_s)
     spool = ctxm.Pool(NPROC, initializer=_init_symbolic, initargs=(prop,), maxtasksperchild=200) if sym_units else None
     npool = ctxm.Pool(NPROC, initializer=_init_native, initargs=(prop,))
     try:
@@ -143,15 +147,27 @@ def main(argv):
         for u, a in sym_async:
             o = engine.REGISTRY[u[0]]
             try:
-                sym_results.append(a.get(timeout=o.budget.get('seconds', 240) + 120))
+                left = float(os.environ['VERIF_DEADLINE']) - time.time()
+                sym_results.append(a.get(timeout=max(5, min(o.budget.get('seconds', 240), left) + 120)))
             except mp.TimeoutError:
                 sym_results.append({'oid': u[0], 'case_idx': u[1], 'case': o.cases[u[1]], 'status': 'UNDECIDED',
                                     'undecided': [{'reason': 'unit wall-clock budget exhausted', 'path': []}],
                                     'refuted': [], 'paths': 0, 'claims': 0, 'proved': 0, 'solver_s': 0, 'checks': 0,
                                     'covers': []})
+        # bounded stand-ins: a native run that does not finish inside the run's native budget is NO verdict (never a violation,
+        # never a checker fault): code under test that loops is cut by ghost-tick caps where running time is the property (C19)
+        nat_deadline = t0 + float(os.environ.get('VERIF_NATIVE_SECONDS', '900' if tier == 'quick' else '7200'))
         for u, a in nat_async:
-            nat_results.append(a.get(timeout=3600))
+            try:
+                nat_results.append(a.get(timeout=max(5, nat_deadline - time.time())))
+            except mp.TimeoutError:
+                rt = {'oid': u[1], 'case_idx': u[2], 'case': engine.REGISTRY[u[1]].cases[u[2]], 'status': 'TIMEOUT',
+                      'evaluations': 0, 'distinct': 0, 'skipped': 0, 'failures': [], 'covers': [], 'wall_s': 0,
+                      'chain': u[0] == 'chain'}
+                nat_results.append(rt)
+                print(f'UNDECIDED obligation={unit_name(rt)} reason=native stand-in did not finish inside the time budget stand-in=none')
         conf = conf_async.get(timeout=600)
+        triage_deadline = t0 + float(os.environ.get('VERIF_TRIAGE_SECONDS', '1500' if tier == 'quick' else '9000'))
 
         # the loader must be transparent for the source as it is now; if the conformance corpus behaves differently under the
         # rewritten + shadowed package than natively (code using the buffer protocol on shadowed types, say), no deductive result of
@@ -183,6 +199,17 @@ def main(argv):
                 if per_ob[r['oid']] <= 24:
                     pre[(r['oid'], r['case_idx'])] = npool.apply_async(
                         _nat_task, (('once', r['oid'], r['case_idx'], r['refuted'][0].get('inputs') or {}),))
+        # native stand-ins of UNDECIDED units: all started in parallel on the native pool; the triage deadline bounds the wait
+        und, und_per_ob = {}, {}
+        for r in sym_results:
+            if r['status'] == 'UNDECIDED' and not r.get('withheld'):
+                und_per_ob[r['oid']] = und_per_ob.get(r['oid'], 0) + 1
+                if und_per_ob[r['oid']] <= 400:
+                    o_ = engine.REGISTRY[r['oid']]
+                    und[(r['oid'], r['case_idx'])] = npool.apply_async(
+                        _nat_task, (('search', r['oid'], r['case_idx'], max(o_.samples, 300), seed),))
+                else:
+                    r['withheld'] = True
         for r in sym_results:
             o = engine.REGISTRY[r['oid']]
             if r['status'] == 'ERROR':
@@ -197,11 +224,15 @@ def main(argv):
                 for ci_, cex in enumerate(r['refuted']):
                     inputs = cex.get('inputs') or {}
                     if ci_ == 0:
-                        nr = _get(pre[(r['oid'], r['case_idx'])], 600)
+                        nr = _get(pre[(r['oid'], r['case_idx'])], 150)
                         if nr.get('timed_out'):
                             continue
                     else:
-                        nr = npool.apply_async(_nat_task, (('once', r['oid'], r['case_idx'], inputs),)).get(timeout=600)
+                        if time.time() > triage_deadline:
+                            break
+                        nr = _get(npool.apply_async(_nat_task, (('once', r['oid'], r['case_idx'], inputs),)), 150)
+                        if nr.get('timed_out'):
+                            continue
                     if nr.get('crashed'):
                         fault.append((unit_name(r), nr.get('error')))
                         continue
@@ -209,9 +240,9 @@ def main(argv):
                         rep = {'how': 'solver counter-model replayed natively', 'inputs': nr['used'],
                                'failed': nr['failed'], 'trace': nr.get('trace'), 'cex': cex}
                         break
-                if rep is None:
+                if rep is None and time.time() < triage_deadline:
                     sr = _get(npool.apply_async(_nat_task, (('search', r['oid'], r['case_idx'],
-                                                            max(o.samples, 400), seed),)), 900)
+                                                            max(o.samples, 400), seed),)), 300)
                     if not sr.get('ok', True):
                         rep = {'how': f'bounded native search ({sr.get("tried")} inputs) after the counter-model did '
                                       f'not reproduce', 'inputs': sr['used'], 'failed': sr['failed'],
@@ -222,7 +253,7 @@ def main(argv):
                 r['standin'] = 'not searched (sibling units of the same obligation were)'
                 undecided_lines.append(r)
             elif r['status'] == 'UNDECIDED':
-                sr = _get(npool.apply_async(_nat_task, (('search', r['oid'], r['case_idx'], max(o.samples, 300), seed),)), 900)
+                sr = _get(und[(r['oid'], r['case_idx'])], max(5, min(600, triage_deadline - time.time())))
                 if not sr.get('ok', True):
                     r['replay'] = {'how': f'bounded native stand-in for an undecided obligation', 'inputs': sr['used'],
                                    'failed': sr['failed'], 'trace': sr.get('trace'), 'cex': None}
